@@ -1,7 +1,7 @@
 (* One entry point for the correspondence check: a case line in, the model's and the spec's canonical
    result lines out.  Extracted to OCaml (ExtrOcamlBasic only) and also evaluated by vm_compute. *)
 From Coq Require Import NArith ZArith List Bool String.
-From KT Require Import Model.Show Model.Ops Model.Rows Model.Pipeline Model.Reader Model.Cli.
+From KT Require Import Model.Show Model.Ops Model.Rows Model.Pipeline Model.Reader Model.Cli Model.CtrFs.
 Import ListNotations.
 Open Scope N_scope.
 
@@ -147,6 +147,8 @@ Definition dispatch0 (line : list N) : list N * list N :=
       else unknown
   | [op; a; b; c; d] =>
       if is "ocgr" op then (m_ocgr (parse_nat a) (parse_Z b) (flag c) (parse_hex d), s_ocgr (parse_nat a) (parse_Z b) (flag c) (parse_hex d))
+      else if is "ctrfs" op then
+        (m_ctrfs (parse_nat a) (parse_dec b) (flag c) (parse_hex_list d), s_ctrfs (parse_nat a) (parse_dec b) (flag c) (parse_hex_list d))
       else if is "read" op then   (* read <file name> <expected format> <members> <expected records id:seq,...> *)
         (m_read a (parse_hex_list c), s_read b (parse_recs d))
       else unknown
